@@ -96,7 +96,14 @@ def feed (st : Stats) (sc : Scen) (e : Ev) : IO (Stats × Scen) := do
       | .msg _ out =>
         if !cfgOk s.cfg then st := st.bump "S_oracle_skipped_dup"
         else match out with
-          | some o => if !o.loc.isEmpty && !o.rem.isEmpty then st := st.bump "S_msg_both_channels"
+          | some o =>
+            if !o.loc.isEmpty && !o.rem.isEmpty then st := st.bump "S_msg_both_channels"
+            -- todo_do's channel buffers are 1024 bytes: messages that made a channel flush while the other had data pending
+            if !o.loc.isEmpty && !o.rem.isEmpty && (o.loc.length > 1024 || o.rem.length > 1024) then
+              st := st.bump "S_msg_both_channels_one_over_1k"
+            if o.loc.length > 1024 && o.rem.length > 1024 then st := st.bump "S_msg_both_channels_both_over_1k"
+            if o.loc.length % 1024 == 0 && !o.loc.isEmpty || o.rem.length % 1024 == 0 && !o.rem.isEmpty then
+              st := st.bump "S_msg_channel_exact_multiple_of_1k"
           | none => st := st.bump "S_msg_failed_judged"
       | _ => pure ()
     sc := { sc with sp := specStep sc.f0 s e }
@@ -105,7 +112,8 @@ def feed (st : Stats) (sc : Scen) (e : Ev) : IO (Stats × Scen) := do
 
 /-- one scenario: fold over the step tokens. `H` = files written, SIGHUP delivered while the daemon was
 blocked in select(), daemon seen idle in select() again: events edit, hup, top. `E` = files written, no
-signal. `M` = one message preprocessed (`! ! !` = left in todo/, no clean request: `goto fail`). -/
+signal. `M` = one message preprocessed (`! ! !` = left in todo/, no clean request: `goto fail`). `I` = a second SIGHUP
+delivered while the re-read for the first one was under way (see there). -/
 partial def scenario (st : Stats) (d0 : Daemon) (sc : Scen) : List String → IO Stats
   | [] => do
     -- the whole observed trace through the two predicates of theorem C10_trace, literally
@@ -130,6 +138,26 @@ partial def scenario (st : Stats) (d0 : Daemon) (sc : Scen) : List String → IO
       let (st', sc') ← feed st sc (.msg todo o)
       scenario st' d0 sc' rest
     | _, _ => disagree st s!"kind=S in={sc.inh} daemon-timeout-or-unparsable todo={todoh} {infoh} {loch} {remh}"
+  | "I" :: ks :: a1 :: b1 :: c1 :: e1 :: g1 :: a2 :: b2 :: c2 :: e2 :: g2 :: masks :: call :: rest => do
+    -- SIGHUP (B) during the re-read that serves SIGHUP (A): f1 written, (A) delivered in select(), the daemon held before
+    -- its k-th call inside reread(); f2 written (atomic renames), (B) delivered, daemon released, idle, trigger pulled
+    -- (loop top), idle.  Re-read (A) saw, per file, the version on disk when it opened that file: f1 for the files the
+    -- mask names as already opened, f2 for the others (`g`).  Observed events: edit g, hup, top, edit f2, hup, top.
+    match filesOf [a1, b1, c1, e1, g1], filesOf [a2, b2, c2, e2, g2], masks.toNat?, ks.toNat? with
+    | some f1, some f2, some mask, some _ =>
+      let g : Files := { f1 with locals := if mask % 2 == 1 then f1.locals else f2.locals,
+                                 vdoms := if mask / 2 % 2 == 1 then f1.vdoms else f2.vdoms }
+      let (st1, sc1) ← feed st sc (.edit g)
+      let (st2, sc2) ← feed st1 sc1 .hup
+      let (st3, sc3) ← feed st2 sc2 .top
+      let (st4, sc4) ← feed st3 sc3 (.edit f2)
+      let (st5, sc5) ← feed st4 sc4 .hup
+      let (st6, sc6) ← feed st5 sc5 .top
+      let st7 := (st6.bump "S_hup").bump "S_hup"
+      let st8 := if call == "none" then st7.bump "S_hup_back_to_back" else
+        (st7.bump "S_hup_during_reread").bump ("S_hup_during_reread_at_" ++ call ++ "_opened" ++ masks)
+      scenario st8 d0 { sc6 with hups := sc6.hups + 2, stale := false } rest
+    | _, _, _, _ => disagree st s!"kind=S in={sc.inh} unparsable I step"
   | k :: a :: b :: c :: e :: f :: rest => do
     if k != "H" && k != "E" then return (← disagree st s!"kind=S in={sc.inh} bad-step {k}")
     match filesOf [a, b, c, e, f] with
